@@ -172,7 +172,7 @@ func (w *c04nsWorld) checkAll() (string, string) {
 			}
 		}
 		for _, l := range tk.leases {
-			le, err := w.tc.c.expiration.loadEntry(w.ctx(tk.ns), l.leaseID)
+			le, err := w.tc.c.expiration.loadEntry(w.ctx(l.ns), l.leaseID)
 			if err != nil {
 				continue
 			}
@@ -181,7 +181,11 @@ func (w *c04nsWorld) checkAll() (string, string) {
 				rv := w.hub.revoked[l.secretID]
 				w.hub.mu.Unlock()
 				if rv == 0 {
-					return "lease-not-revoked", fmt.Sprintf("lease %s issued under revoked token %s is still stored with expiry %v in the future and was not revoked at the backend", l.leaseID, tk.name, le.ExpireTime)
+					sig := "lease-not-revoked"
+					if l.ns != tk.ns {
+						sig = "lease-not-revoked:lease-in-namespace-below-the-token's"
+					}
+					return sig, fmt.Sprintf("lease %s issued under revoked token %s is still stored with expiry %v in the future and was not revoked at the backend", l.leaseID, tk.name, le.ExpireTime)
 				}
 			}
 		}
@@ -198,7 +202,7 @@ func (w *c04nsWorld) shape() string {
 }
 
 func TestVerif_C04_Namespaces(t *testing.T) {
-	rec := verifx.NewRecorder("C04", "namespaces", "rapid state machine on a fresh core with the namespaces root, n1/ and n1/n2/ (a recording secrets backend and the same policy in each): create a token in a generated namespace under a generated live parent of that namespace or of a namespace above it (or as root-created child / orphan), write its cubbyhole, obtain a leased secret in its namespace, revoke (by id / by accessor / revoke-orphan issued in the token's namespace or one above it, or revoke-self), restart on the same storage; after every action every token of the model is probed in its own namespace (lookup-self, request to the recording backend, cubbyhole key in physical storage, lease entries); non-trivial = a successful revocation of a token whose subtree spans more than one namespace")
+	rec := verifx.NewRecorder("C04", "namespaces", "rapid state machine on a fresh core with the namespaces root, n1/ and n1/n2/ (a recording secrets backend and the same policy in each): create a token in a generated namespace under a generated live parent of that namespace or of a namespace above it (or as root-created child / orphan), write its cubbyhole, obtain a leased secret in its namespace or in one below it, revoke (by id / by accessor / revoke-orphan issued in the token's namespace or one above it, or revoke-self), restart on the same storage; after every action every token of the model is probed in its own namespace (lookup-self, request to the recording backend, cubbyhole key in physical storage, lease entries); non-trivial = a successful revocation of a token whose subtree spans more than one namespace")
 	defer rec.Flush()
 	rapid.Check(t, func(rt *rapid.T) {
 		w := newC04nsWorld(t, rapid.Bool().Draw(rt, "transactionalStorage"))
@@ -206,6 +210,7 @@ func TestVerif_C04_Namespaces(t *testing.T) {
 		nontrivial := false
 		restarts := 0
 		crossCreated := 0
+		crossLeases := 0
 		fail := func(sig, msg string) {
 			rec.Violation(rt, sig, map[string]any{"history": w.log, "tree": w.shape()}, "%s; history=%v", msg, w.log)
 		}
@@ -267,12 +272,23 @@ func TestVerif_C04_Namespaces(t *testing.T) {
 					rt.Skip("no live token")
 				}
 				tk := w.toks[i]
-				r := w.reqIn(tk.ns, logical.ReadOperation, "rb/creds/x", tk.id, nil)
+				// in the token's namespace or in one below it
+				var cands []int
+				for n := range w.nss {
+					if w.below(tk.ns, n) {
+						cands = append(cands, n)
+					}
+				}
+				lns := cands[fairIndex(rt, "leaseNS", len(cands))]
+				r := w.reqIn(lns, logical.ReadOperation, "rb/creds/x", tk.id, nil)
 				if r.ok() && r.resp != nil && r.resp.Secret != nil && r.resp.Secret.LeaseID != "" {
 					sid, _ := r.resp.Data["secret_id"].(string)
-					tk.leases = append(tk.leases, c04Lease{leaseID: r.resp.Secret.LeaseID, secretID: sid})
+					tk.leases = append(tk.leases, c04Lease{leaseID: r.resp.Secret.LeaseID, secretID: sid, ns: lns})
+					if lns != tk.ns {
+						crossLeases++
+					}
 				}
-				w.logf("lease %d -> %v", i, r)
+				w.logf("lease %d in %q -> %v", i, w.nss[lns].Path, r)
 			},
 			"revoke": func(rt *rapid.T) {
 				if len(w.toks) == 0 {
@@ -364,6 +380,7 @@ func TestVerif_C04_Namespaces(t *testing.T) {
 			},
 		})
 		rec.Class("cross-namespace-children", int64(crossCreated))
+		rec.Class("leases-taken-in-a-namespace-below-the-token's", int64(crossLeases))
 		rec.Case(fmt.Sprintf("restarts=%d,cross=%v", restarts, crossCreated > 0), nontrivial, verifx.Digest(w.log), func() any { return map[string]any{"history": w.log, "tree": w.shape()} })
 	})
 }
